@@ -279,17 +279,21 @@ def value(m: Mod, t: Ty, depth: int = 0) -> str | None:
         if b == "int":
             opts = ["0", "1", "-1", "42", "0x10", "10 ** 6", "1 << 4", "-(2 ** 31)", "1_000", "~0", "+3"]
             opts += [n for n, ty_ in m.consts.items() if ty_ == "int"]
+            if r.random() < 0.12:
+                return m.imp("sys") + r.choice([".maxsize", ".version_info.major", ".float_info.dig", ".hash_info.width"])
             return r.choice(opts)
         if b == "str":
             opts = ["''", "'a'", '"it\'s"', "'say \"hi\"'", "'\\n'", "'\\\\d+'", "'caf\\u00e9'", "'x' * 3", "'a' 'b'",
                     "r'\\w'", LONG_STR, "str()"]
             opts += [n for n, ty_ in m.consts.items() if ty_ == "str"]
             if r.random() < 0.2:
-                return m.imp("os") + ".sep"
+                return m.imp("os") + r.choice([".sep", ".path.sep", ".path.curdir", ".linesep"])
             return r.choice(opts)
         if b == "bytes":
             return r.choice(["b''", "b'x'", "b'\\x00\\xff'", 'b"it\'s"', "b'\\\\'", "bytes(2)"])
         if b == "float":
+            if r.random() < 0.1:
+                return m.imp("sys") + r.choice([".float_info.max", ".float_info.epsilon"])
             if r.random() < 0.2:
                 return m.imp("math") + r.choice([".pi", ".inf", ".e"])
             return r.choice(["0.0", "1.5", "-2.5", "1e10", "1e-7", "float('inf')", "-0.0", ".5", "3."])
@@ -879,6 +883,12 @@ def c_dataclass(m: Mod) -> None:
             m.add(f"    _: {kwo}")
             kw_only = True
             ctor_args = None
+    if r.random() < 0.2 and seen_default and "slots" not in args:
+        # attribute-of-attribute references printed verbatim in the stub (field specifier arguments)
+        fn = (m.imp_from("dataclasses", "field") if "." not in dc else dc.rsplit(".", 1)[0] + ".field")
+        nm_, ty_, dv_ = r.choice([("eps", "float", m.imp("sys") + ".float_info.epsilon"), ("sep", "str", m.imp("os") + ".path.sep"),
+                                  ("major", "int", m.imp("sys") + ".version_info.major")])
+        m.add(f"    {nm_}: {ty_} = {fn}(default={dv_}{r.choice(['', ', repr=False'])})")
     if r.random() < 0.3 and "slots" not in args:
         m.add(f"    kind: {m.ty('ClassVar')}[str] = 'k'")
     if r.random() < 0.3 and "slots" not in args:
@@ -1165,7 +1175,7 @@ def v_alias(m: Mod) -> None:
         n2 = m.fresh("alias_fn")
         m.add(f"{n2} = {r.choice(m.funcs)}")
         m.define(n2, "function-alias")
-    elif c < 0.9:
+    elif c < 0.85:
         n2 = m.fresh("UserId")
         b = r.choice(["int", "str"])
         m.add(f"{n2} = {m.ty('NewType')}('{n2}', {b})")
